@@ -24,6 +24,8 @@ def main(argv):
     tier = "thorough" if ("--thorough" in argv or os.environ.get("VERIF_TIER") == "thorough") else "quick"
     seed = int(os.environ.get("VERIF_SEED", "0"))
     ctx = common.Ctx(pid, tier, seed)
+    import shutil
+    shutil.rmtree(os.path.join(common.ROOT, "replays", pid), ignore_errors=True)     # replays of earlier runs
     ok, log = common.ensure_built()
     obl = common.coq_obligations(pid)
     forb = common.forbidden_scan()
